@@ -7,7 +7,7 @@ demo=$(ls zz_demo_*_test.go | head -1); tname=$(grep -o 'func TestDemo[A-Za-z0-9
 echo "== $name: demo=$demo test=$tname"
 go build ./... || { echo "BUILD FAILS"; exit 1; }
 go test -vet=off -count=1 -run "^$tname\$" . > /tmp/cs_with.txt 2>&1; w=$?
-git stash -q; go test -vet=off -count=1 -run "^$tname\$" . > /tmp/cs_without.txt 2>&1; wo=$?; git stash pop -q
+git diff > /tmp/cs_$id.patch; git checkout -- .; go test -vet=off -count=1 -run "^$tname\$" . > /tmp/cs_without.txt 2>&1; wo=$?; git apply /tmp/cs_$id.patch; rm -f /tmp/cs_$id.patch
 echo "demo with change: exit $w (want != 0); without: exit $wo (want 0)"
 mv $demo /tmp/$demo.aside
 go test -vet=off -count=1 ./... 2>&1 | grep -E "^(--- FAIL|ok|FAIL)" | tr '\n' ' '; echo
